@@ -8,6 +8,9 @@ CHECKS = {
  'C14': ('model_checking', 'bit-precise (z3 QF_FPBV+UF) symbolic execution of clang LLVM IR of the six comparison operators and std::hash of every comparable type against the lexicographic-order specification',
          'For every quantity, vector/tensor, dimension and model type the six comparison operators and std::hash are executed symbolically from clang IR and shown, for all non-NaN bit patterns (all int8 exponents for Dimensions), to coincide with lexicographic order / component-wise equality of the stored values; a == b implies equal hashes with the std::hash bodies executed and _Hash_bytes uninterpreted (decided compositionally: one lemma per component hash + combination over shared variables).',
          'clang 14 IR at -O1; NaN excluded as the property states; _Hash_bytes and std::hash<long double> are uninterpreted functions (the latter 0 for signed zeros, libstdc++ behaviour assumed); container storability follows by the std containers\' contract', '3 C14'),
+ 'C16': ('model_checking', 'bit-precise (z3 QF_FP) symbolic execution of clang LLVM IR of every converting constructor/assignment against fpext/fptrunc per component',
+         'For every class and all six ordered pairs of numeric types the converting constructor and the converting assignment (into an arbitrary symbolic pre-state) are executed symbolically from clang IR; every result component is shown to be exactly the plain cast of the same source component for all bit patterns; widen-then-narrow is the identity; directions equal the re-normalised cast.',
+         'clang 14 IR at -O1; z3 FP theory; one NaN per format (payloads not distinguished)', '3 C16'),
 }
 NA = {}
 def main():
